@@ -28,6 +28,14 @@ CLAIMED = {
          "multiplicities, per-row n-th differences; operand unchanged",
          "bounds: rows<=3 (4), row length<=3 (4); int64 cells (Int-represented, |v|<=1000, through the bit-pattern bijection for the offset broadcast; 64-bit "
          "vectors for xor); float/bool inputs of sort/unique/diff not yet covered"),
+ "C08": ("4/C08", "np.concatenate along rows (1-3 operands, each with its own symbolic row lengths) and along columns, zeros_like/ones_like/empty_like "
+         "(+dtype), as_padded_matrix (left/right/default, symbolic fill), nonzero (method and np.nonzero; int and bool cells), where(mask, x, y) with ragged/ragged "
+         "and ragged/scalar operands, subset(mask) and ra[mask], ragged_slice on ragged, 1-D and 2-D sources with symbolic starts/ends (negative ends, ends beyond the row)",
+         "bounds: rows<=3 (4), row length<=3, 2-3 operands with rows<=2; preconditions: padded matrix needs one non-empty row, 1-D ragged_slice takes both vectors, "
+         "a scalar x in where() is outside the claim"),
+ "C09": ("4/C09", "ra.sum(axis=0) and np.sum(ra, axis=0) for int64, bool and unsigned cells, col_counts(), get_column_values(j) with symbolic j, over symbolic "
+         "row lengths with at least one non-empty row: column j sums/counts exactly the rows longer than j; result length = longest row",
+         "bounds: rows<=4 (5), row length<=3 (4); |cell|<2^40 (float64-exact weighted bincount); element type of the result not compared; column mean not yet covered"),
  "C05": ("4/C05", "sum/prod/any/all/max/min and bitwise_or/xor/and.reduce per row through the method, np.<func> and ufunc.reduce entry points, keepdims, "
          "and axis=None, over symbolic row lengths with empty rows anywhere (all-empty and zero rows included); multiplication as an uninterpreted left fold",
          "bounds: rows<=4 (5), row length<=3 (4); max/min with non-empty rows; result element type not compared (C04's subject); mean/argmax/argmin not yet covered"),
